@@ -285,14 +285,23 @@ def distinct_rule(ck, facts):
         return
     c = clos[0]
     ins = [t for _, t in c.calls() if call_name_matches(t, r"HashSet::<T, S, A>::insert$|HashSet::<T, S>::insert$")][0]
-    chain = provenance(c, ins["args"][1], transparent=TRANSPARENT + (r"iter::Iterator::collect$",))
-    src = chain[-1]
-    if src[0] == "call" and call_name_matches(src[1], r"iter::Iterator::map$"):
+    adapters = []
+    op = ins["args"][1]
+    for _ in range(10):
+        o = c.origin(op)
+        if o[0] != "call":
+            break
+        m = re.search(r"iter::Iterator::(\w+)$", o[1]["f"].get("name") or "")
+        if not m:
+            break
+        adapters.append(m.group(1))
+        op = o[1]["args"][0]
+    if adapters == ["collect", "map"]:
         ck.ok("R13.5", "DISTINCT key = variables.iter().map(..).collect(): one positional component per variable")
     else:
-        nm = src[1]["f"]["name"] if src[0] == "call" else src[0]
-        ck.bad("R13.5", "R13.5@distinct#key", "the DISTINCT key is built with %s: unbound variables no longer keep their position, so "
-               "different solutions can collide" % nm, c.loc)
+        ck.bad("R13.5", "R13.5@distinct#key", "the DISTINCT key is built with the iterator chain %s over the projected variables: unless it "
+               "is exactly one `map`, unbound variables no longer keep their position and different solutions can collide"
+               % list(reversed(adapters)), c.loc)
     # Err rows kept
     kept = False
     for b in c.blocks:
